@@ -19,6 +19,10 @@ PLAN = {
  "C13-M3":["C10"], "C13-M4":["C13"], "C14-M3":["C14"], "C14-M4":["C14"], "C15-M3":["C15"], "C15-M4":["C15"],
  "C16-M3":["C16"], "C16-M4":["C16"], "C17-M3":["C17"], "C17-M4":["C17"], "C18-M3":["C18"], "C18-M4":["C18"],
  "C19-M3":["C19"], "C19-M4":["C19"], "C20-M3":["C14"], "C20-M4":["C13"],
+ # round 3 (M5)
+ "C01-M5":["C10"], "C02-M5":["C02"], "C03-M5":["C03"], "C04-M5":["C04"], "C05-M5":["C05"], "C06-M5":["C06"], "C07-M5":["C11", "C07"],
+ "C08-M5":["C08"], "C09-M5":["C09"], "C10-M5":["C10"], "C11-M5":["C11"], "C12-M5":["C12"], "C13-M5":["C10", "C13"], "C14-M5":["C14"],
+ "C15-M5":["C15"], "C16-M5":["C04", "C16"], "C17-M5":["C17"], "C19-M5":["C19"], "C20-M5":["C20"],
 }
 claimed = {c["property_id"] for c in json.load(open("/verif/MANIFEST.json"))["checks"]}
 def sh(cmd, **kw): return subprocess.run(cmd, shell=True, capture_output=True, text=True, **kw)
